@@ -253,6 +253,96 @@ def h_1d(ctx, nl, nr, levels=1, fa=False, fv=True):
         ctx.prove("C03.same_brownian_increments_drive_both", len(cmc.fine_process._path_simulation._brownian_increments) == 0, info=info, replay=rpl)
 
 
+# ---- assembly of the coupled jump values per product date (fixed-date mode), for list- and array-valued state increments
+
+
+def replay_slices(sc):
+    """real coupled chain (HEM), every sampling method the constructor accepts, fixed-date mode: simulate 200 coupled paths"""
+    details = []
+    model = concrete_models()["hem"]
+    for method in (SamplingMethod.INVERSION, SamplingMethod.BINARYSEARCHTREE, SamplingMethod.TABLE, SamplingMethod.ALIAS, SamplingMethod.HUFFMANNTREE,
+                   SamplingMethod.BINARYSEARCHTREEADAPTED1D):
+        h = 0.1
+        axis = np.array([-2 * h, -h, 0.0, h, 2 * h])
+        grid = GS.CTMCGrid(h=h, origin_coordinate=2, axes=[axis.copy()])
+        try:
+            cmc = CMC.CouplingMarkovChain(model, method, grid)
+        except Exception:
+            continue  # not accepted by the constructor
+        prod = StubProduct(times=TIMES)
+        cmc.initialisation(prod)
+        cmc.next_level(mc_paths=200, path_managers=[StubPathManager()], product=prod)
+        st = np.random.get_state()
+        np.random.seed(3)
+        try:
+            for _ in range(200):
+                try:
+                    cmc.simulate_one_path_with_coupling()
+                except Exception as e:
+                    details.append(f"{method.name}: simulate_one_path_with_coupling raises {type(e).__name__}: {str(e)[:90]}")
+                    break
+        finally:
+            np.random.set_state(st)
+    return bool(details), "HEM, coarse grid of 5 states refined once, fixed-date mode: " + "; ".join(details)
+
+
+def h_slices(ctx, kind):
+    """jump counts 0, 1, 2 on three product dates; the fine chain's state increments arrive as python lists (inversion sampler) or as
+    numpy arrays (alias / table / tree samplers).  Per date: fine value = last cumulated fine value, coarse value = last cumulated
+    coupled value (even increments copied, odd ones moved to an adjacent coarse state), 0 when there is no jump."""
+    axis, h, pivot = sym_axis(ctx, 1, 1)
+    grid = make_grid(h, pivot, [axis])
+    model = A.abs_levy_model(ctx, "nu", sigma=0.0, a=0.0, finite_activity=True, finite_variation=True)
+    try:
+        cmc = CMC.CouplingMarkovChain(model, SamplingMethod.INVERSION, grid)
+        cmc.initialisation(StubProduct(times=TIMES))
+        cmc.next_level(mc_paths=0, path_managers=[StubPathManager()], product=StubProduct(times=np.array([0.0, 1.0, 2.0, 3.0])))
+    except ZeroDivisionError:
+        raise PathAbort()
+    sim = cmc._path_coupling_simulation
+    fine_axis, piv = grid.axes[0], grid.origin_coordinate.value
+    incs = [[], [1], [-1, 2]]
+    conv = (lambda x: list(x)) if kind == "list" else (lambda x: np.array(x, dtype=int))
+    values = []
+    for sl in incs:
+        v = np.empty(len(sl), dtype=object)
+        run = 0.0
+        for k, i in enumerate(sl):
+            run = run + fine_axis[piv + i]
+            v[k] = run
+        values.append(v)
+
+    class _PS:
+        def simulate_markov_chain(self_inner):
+            return MC.MarkovChain(np.array([1.0, 2.0, 3.0]), values, [conv(sl) for sl in incs])
+
+    cmc.fine_process._path_simulation = _PS()
+    outcomes = [ctx.bool(f"right{k}") for k in range(3)]
+    decided = [bool(o) for o in outcomes]
+    cmc.uniform = type("U", (), {"sample": lambda self_inner, size=1: ScriptedUniform([decided.pop(0)])})()
+    rp = (replay_slices, lambda m: {})
+    info = {"increments": kind}
+    try:
+        fine, coarse = sim.simulate_jumps_with_coupling()
+    except ZeroDivisionError:
+        raise PathAbort()  # a fine cell of zero mass is never visited (the coupling divides by the cell mass)
+    except (ValueError, TypeError) as e:
+        ctx.prove("C03.coupled_dates_assembly_accepts_the_samplers_output", False, info=dict(info, raised=f"{type(e).__name__}: {str(e)[:100]}"), replay=rp)
+        return
+    ctx.prove("C03.coupled_dates_assembly_accepts_the_samplers_output", True)
+    used = [bool(o) for o in outcomes]
+    want_c = [0.0]
+    # slice [1]: odd -> right or left neighbour
+    c1 = fine_axis[piv + 2] if used[0] else fine_axis[piv]
+    want_c.append(c1)
+    # slice [-1, 2]: odd then even
+    c2 = (fine_axis[piv] if used[1] else fine_axis[piv - 2]) + fine_axis[piv + 2]
+    want_c.append(c2)
+    want_f = [0.0, fine_axis[piv + 1], fine_axis[piv - 1] + fine_axis[piv + 2]]
+    ctx.prove("C03.coupled_dates_fine_value_is_last_cumulated_value", AND(*[EQ(fine[k], want_f[k]) for k in range(3)]), info=info, replay=rp)
+    ctx.prove("C03.coupled_dates_coarse_value_is_last_cumulated_coupled_value", AND(*[EQ(coarse[k], want_c[k]) for k in range(3)]), info=info, replay=rp)
+
+
 def _prove_ratio(ctx, oid, prob, rate, target, info, rp, regions=None, timeout_ms=None):
     """prob * rate == target for a fine cell of positive mass, where prob is a ratio of masses: cross-multiplied so that no
     division reaches the solver (num * rate == target * den, den != 0)."""
@@ -438,6 +528,8 @@ def harnesses(tier):
             hs.append(Harness(f"1d.{nl}.{nr}.L{lv}.fa{int(fa)}.fv{int(fv)}", h_1d, {"nl": nl, "nr": nr, "levels": lv, "fa": fa, "fv": fv}, max_paths=6000, batch=4))
     if q:  # two successive refinements with an infinite-variation driver (the coarse diffusion coefficient changes with the level)
         hs.append(Harness("1d.1.1.L2.fa0.fv0", h_1d, {"nl": 1, "nr": 1, "levels": 2, "fa": False, "fv": False}, max_paths=6000, batch=4))
+    for kind in ("list", "array"):
+        hs.append(Harness(f"slices.{kind}", h_slices, {"kind": kind}, max_paths=200))
     for par in ("ee", "oo", "oe", "eo"):
         for w in range(len(INCS[par])):
             if q and par in ("oe", "eo") and w > 0:
@@ -447,7 +539,7 @@ def harnesses(tier):
     return hs
 
 
-EXPECT = ["C03.coarse_rate_preserved.1d", "C03.even_increment_copied_unchanged", "C03.odd_increment_moves_to_adjacent_coarse_state",
+EXPECT = ["C03.coupled_dates_assembly_accepts_the_samplers_output", "C03.coupled_dates_coarse_value_is_last_cumulated_coupled_value", "C03.coarse_rate_preserved.1d", "C03.even_increment_copied_unchanged", "C03.odd_increment_moves_to_adjacent_coarse_state",
           "C03.transfer_probability_times_rate_is_half_cell_mass", "C03.coarse_diffusion_is_previous_fine", "C03.coarse_deterministic_path_is_previous_level",
           "C03.same_brownian_increments_drive_both", "C03.copula.transfer_probability_times_rate_is_subcell_mass",
           "C03.copula.even_increment_copied_unchanged", "C03.copula.corner_probabilities_sum_to_one"]
